@@ -51,7 +51,8 @@ class ShadowObserver:
     def __init__(self, rep, case, conf, n, hbar, simrun):
         self.rep, self.case, self.conf, self.n, self.hbar = rep, case, conf, n, hbar
         self.simrun = simrun
-        self.g = rg.GState(n)
+        self.lg = rg.Labelled(n)
+        self.g = self.lg.g
         self.valid = True
         self.diverged = False
         self.tau_star = 0.0
@@ -78,7 +79,9 @@ class ShadowObserver:
             self.valid = False
             return
         try:
-            ok = rg.apply_op(self.g, ev["name"], ev["p"], ev["modes"], ev["dagger"], self.hbar)
+            ok = self.lg.apply(ev["name"], ev["p"], ev["modes"], ev["dagger"], self.hbar)
+            if ev["name"] in ("_New_modes", "_Delete"):
+                rep.observe("shadow.structural:%s@%s" % (ev["name"], self.label()))
         except Exception as e:
             rep.error("shadow.apply_op", e)
             ok = False
@@ -144,7 +147,7 @@ class ShadowObserver:
             # single-mode reduced density matrices against The Walrus on the reference marginals
             from thewalrus.quantum import density_matrix
 
-            for m in ev["modes"]:
+            for m in ([] if ev["name"] == "_Delete" else self.lg.pos(ev["modes"])):
                 mu1, V1 = self.g.reduced([m])
                 ref = density_matrix(mu1, V1, cutoff=self.D, hbar=2)
                 got = after.reduced_matrix([m])
@@ -190,13 +193,14 @@ def run_case(case, rep, env):
             confs.append({"backend": "fock", "cutoff_dim": D, "pure": True})
             confs.append({"backend": "fock", "cutoff_dim": D, "pure": False})
         # source shadow (user's uncompiled program)
-        gsrc = rg.GState(n)
+        lsrc = rg.Labelled(n)
+        gsrc = lsrc.g
         src_ok = True
         for c in spec["cmds"]:
             from ..common import dec as jdec
 
             p = [jdec(x) for x in c["p"]]
-            if not rg.apply_op(gsrc, c["op"], p, c["m"], c.get("dag", False), hbar):
+            if not lsrc.apply(c["op"], p, c["m"], c.get("dag", False), hbar):
                 src_ok = False
                 break
         finals = {}
@@ -274,10 +278,17 @@ def gen_case(rng, simrun, fock):
                 a, b = (int(x) for x in rng.choice(n, 2, replace=False))
                 pre.append({"op": "BSgate", "p": [float(rng.uniform(0.3, 1.2)), float(rng.uniform(0, 6.28))], "m": [a, b], "dag": False})
             spec["cmds"] = pre + spec["cmds"]
+        if n <= 2 and rng.random() < 0.25:
+            # subsystems created and deleted in the middle of the program (at most 3 Fock modes alive)
+            spec = simrun.extend_with_new_del(rng, gen, spec, allow, True, 3, with_new=rng.random() < 0.8, with_del=rng.random() < 0.6)
+            n = 3
         return {"spec": spec, "hbar": float(rng.choice([2.0, 1.0, 0.5])), "fock": True,
                 "cutoff": 10 if n <= 2 else 8}
     allow = simrun.GAUSSIAN_OK if rng.random() < 0.5 else simrun.BOSONIC_OK
     spec = simrun.gen_program(rng, gen, n=int(rng.integers(1, 5)), small=False, allow=allow)
+    if rng.random() < 0.25:
+        spec = simrun.extend_with_new_del(rng, gen, spec, allow, False, 6, with_new="New" in allow and rng.random() < 0.8,
+                                          with_del=rng.random() < 0.6)
     return {"spec": spec, "hbar": float(rng.choice([2.0, 1.0, 0.5])), "fock": False}
 
 
